@@ -9,6 +9,7 @@ From CG Require Import Proofs.CheckSpans Proofs.PipelineSpans Proofs.CapstoneLay
 From CG Require Import Model.BashSem Model.Glob Spec.Lang Spec.ScriptRead Spec.Meaning Spec.Domain Spec.Invocations.
 From CG Require Import Proofs.TreeFacts Proofs.BashScript Proofs.BashCodec Proofs.EmbedEndToEnd Proofs.SubChecks
   Proofs.BashMeaningSub Proofs.BashMeaningMix Proofs.StripFacts Proofs.GlobFacts Proofs.CapstoneMeaning.
+From CG Require Import Spec.Choice Proofs.CheckProvenance Proofs.CapstoneCommands Proofs.CapstoneChoice.
 From CGgen Require Import Consts.
 
 (** ** C14 -- layout and statement order do not change the script
@@ -171,3 +172,72 @@ Proof.
   vm_compute. repeat split; try reflexivity; discriminate.
 Qed.
 Print Assumptions ex_C01_capstone_inhabited.
+
+(** ** C11 -- the external commands the script can run
+
+    If [compile_bash] returns the script text [s] for a text that parses to [g], then
+    - every command of the command table of the tables ([a_commands]) is [cmd_source builtins g Bash]:
+      written in a call variant or in a PLAIN definition of the grammar ([plain_cmds]), or the
+      command the specification [Spec.Choice.spec builtins g Bash x] chooses for a nonterminal [x]
+      the grammar refers to -- i.e. the [<x@bash>] definition, else (no plain definition) the
+      built-in for PATH / DIRECTORY.  A definition for ANOTHER shell is never a source;
+    - the statements read back from [s] ([ScriptRead.read_stmts]) contain function bodies
+      ([SBody]) for exactly the commands of that table, each body verbatim ([cmd_body]: trimmed,
+      ":" when empty) -- so every external command the script can run is one of the above.
+    (The converse -- every chosen command of a reachable nonterminal gets a function -- is not
+    stated: it needs "every leaf of the validated tree is on a transition of the minimised
+    automaton", which holds by C02/C03 but is not packaged as a lemma.) *)
+Theorem C11_compile_bash_commands :
+  forall o builtins text s,
+    compile_bash o builtins text = Ok s ->
+    exists g v c nd a,
+      Parser.parse text = Ok g
+      /\ compile (pick_table (o_pops o)) (o_fuel o) builtins text Bash = Ok (v, c)
+      /\ all_tables Bash c (o_main_lits o) (o_sub_lits o) = Ok (nd, a)
+      /\ (forall cm, In cm (a_commands a) -> cmd_source builtins g Bash cm)
+      /\ (name_ok (v_command v) -> no_nl (o_sig o) = true ->
+          Forall (fun cm => body_ok (cmd_body cm)) (a_commands a) ->
+          exists sts,
+            script_stmts (v_command v) (d_start (c_main c)) nd a (o_groups o) = Ok sts
+            /\ read_stmts Bash (v_command v) s = sts
+            /\ forall b, In (SBody b) sts <-> exists cm, In cm (a_commands a) /\ b = cmd_body cm).
+Proof. exact compile_bash_commands. Qed.
+Check C11_compile_bash_commands :
+  forall o builtins text s,
+    compile_bash o builtins text = Ok s ->
+    exists g v c nd a,
+      Parser.parse text = Ok g
+      /\ compile (pick_table (o_pops o)) (o_fuel o) builtins text Bash = Ok (v, c)
+      /\ all_tables Bash c (o_main_lits o) (o_sub_lits o) = Ok (nd, a)
+      /\ (forall cm, In cm (a_commands a) -> cmd_source builtins g Bash cm)
+      /\ (name_ok (v_command v) -> no_nl (o_sig o) = true ->
+          Forall (fun cm => body_ok (cmd_body cm)) (a_commands a) ->
+          exists sts,
+            script_stmts (v_command v) (d_start (c_main c)) nd a (o_groups o) = Ok sts
+            /\ read_stmts Bash (v_command v) s = sts
+            /\ forall b, In (SBody b) sts <-> exists cm, In cm (a_commands a) /\ b = cmd_body cm).
+Print Assumptions C11_compile_bash_commands.
+
+(** the checker-level fact it rests on, for every shell *)
+Theorem C11_validated_commands :
+  forall builtins g sh v,
+    from_grammar builtins g sh = Ok v ->
+    forall c, In c (cmd_texts (v_expr v)) -> cmd_source builtins g sh c.
+Proof. exact from_grammar_cmds. Qed.
+Check C11_validated_commands :
+  forall builtins g sh v,
+    from_grammar builtins g sh = Ok v ->
+    forall c, In c (cmd_texts (v_expr v)) -> cmd_source builtins g sh c.
+Print Assumptions C11_validated_commands.
+
+(** Non-vacuity: <F> has a definition for bash, one for zsh and a plain one; the bash script gets the
+    bash command (and the inline command), not the others. *)
+Definition exc_text : string :=
+  "cmd <F> {{{ echo inline }}}; <F@bash> ::= {{{ echo forbash }}}; <F@zsh> ::= {{{ echo forzsh }}}; <F> ::= {{{ echo plain }}};".
+Example ex_C11_capstone_inhabited :
+  match compile (fun _ _ => O) 100 builtins exc_text Bash with
+  | Ok (v, c) => get_commands c = Ok ["echo forbash"; "echo inline"]
+  | _ => False
+  end.
+Proof. vm_compute. reflexivity. Qed.
+Print Assumptions ex_C11_capstone_inhabited.
